@@ -1172,3 +1172,51 @@ Proof.
       destruct Hz as [Hz|Hz]; [left|right; right]; unfold chain in Hz; apply filter_In in Hz; apply Hz. }
     { generalize (E5 l). rewrite !(CHs sa S2). intro Q. apply Q; lia. }
 Qed.
+
+(* ---------- "remove unused levels" ---------- *)
+Lemma shrink_ok : forall L s, k_level s = Z.of_nat L -> (forall l, l <= L -> exists r, fwd s HEADER l = Ok r) ->
+  exists s', shrink_levels s (rev (seq 0 (S L))) = Ok s' /\
+    k_nodes s' = k_nodes s /\ k_arrs s' = k_arrs s /\ k_length s' = k_length s /\ k_iters s' = k_iters s /\
+    k_used s' = k_used s /\ k_alive s' = k_alive s /\
+    (-1 <= k_level s' <= Z.of_nat L)%Z /\
+    (forall l, (k_level s' < Z.of_nat l)%Z -> l <= L -> fwd s HEADER l = Ok None).
+Proof.
+  induction L; intros s LV FW.
+  - simpl. destruct (FW 0 (le_n 0)) as [r R]. rewrite R. simpl. destruct r.
+    + exists s. repeat split; auto; try lia; intros; lia.
+    + eexists. split; [reflexivity|]. simpl. repeat split; auto; try lia. intros. assert (l = 0) by lia. subst. auto.
+  - rewrite seq_S. rewrite rev_app_distr. cbn [rev app shrink_levels]. cbn [plus].
+    destruct (FW (S L) (le_n _)) as [r R]. rewrite R. cbn [bind]. destruct r.
+    + exists s. repeat split; auto; try lia; intros; lia.
+    + destruct (IHL (set_level s (k_level s - 1))) as [s' [E1 [E2 [E3 [E4 [E5 [E6 [E7 [E8 E9]]]]]]]]].
+      * simpl. lia.
+      * intros l Hl. destruct (FW l) as [r Q]. lia. exists r. exact Q.
+      * exists s'. split; auto. repeat split; auto; try lia. intros l Hl1 Hl2. destruct (Nat.eq_dec l (S L)). subst; auto. apply E9; auto. lia.
+Qed.
+
+(* ---------- dropping the last reference of a node that is already unlinked ---------- *)
+Lemma deref_destroy_ok : forall s y ny ky a h,
+  dnode s y = Ok ny -> sn_ref ny = 1 -> sn_key ny = Some ky -> y <> HEADER -> darr s (sn_fwd ny) = Ok a -> dnode s HEADER = Ok h ->
+  exists s', k_node_deref kv_fixed s y = Ok (s', notify_node (sn_subs ny) EV_DELETED ky (sn_val ny) 0%N ++ notify_global (sn_subs h) EV_DELETED ky (sn_val ny) 0%N) /\
+    (forall x, x <> y -> dnode s' x = dnode s x) /\
+    (forall b, b <> sn_fwd ny -> darr s' b = darr s b) /\
+    length (k_nodes s') = length (k_nodes s) /\ k_length s' = k_length s /\ k_level s' = k_level s /\ k_iters s' = k_iters s /\
+    k_used s' = k_used s /\ k_alive s' = k_alive s.
+Proof.
+  intros s y ny ky a h N R K NH A H.
+  assert (LT : y < length (k_nodes s)) by (eapply dnode_lt; eauto).
+  unfold k_node_deref. rewrite N. cbn [bind]. rewrite R.
+  set (n0 := {| sn_key := sn_key ny; sn_val := sn_val ny; sn_level := sn_level ny; sn_ref := 0; sn_subs := sn_subs ny; sn_fwd := sn_fwd ny |}).
+  unfold k_node_destroy. rewrite dnode_put_node by auto. rewrite Nat.eqb_refl. cbn [bind].
+  simpl kx_hdr_notify. replace (Nat.eqb y HEADER) with false by (symmetry; apply Nat.eqb_neq; auto). cbn [andb].
+  change (sn_key n0) with (sn_key ny). rewrite K. unfold k_notify. rewrite dnode_put_node by auto.
+  replace (Nat.eqb y HEADER) with false by (symmetry; apply Nat.eqb_neq; auto). rewrite H. cbn [bind].
+  simpl kx_removed. cbv iota. unfold free_arr. rewrite darr_put_node. change (sn_fwd n0) with (sn_fwd ny). rewrite A. cbn [bind].
+  unfold free_node. unfold dnode at 1. cbn [k_nodes set_arrs put_node set_nodes]. rewrite nth_error_upd_list by auto. rewrite Nat.eqb_refl. cbn [sc_live sc_node bind].
+  eexists. split; [reflexivity|]. split; [|split].
+  - intros x Hx. unfold dnode. cbn [k_nodes set_nodes set_arrs put_node]. rewrite !nth_error_upd_list by (rewrite ?upd_length; auto).
+    replace (Nat.eqb y x) with false by (symmetry; apply Nat.eqb_neq; auto). reflexivity.
+  - intros b Hb. unfold darr. cbn [k_arrs set_nodes set_arrs put_node]. rewrite nth_error_upd_list by (eapply darr_lt; eauto).
+    replace (Nat.eqb (sn_fwd ny) b) with false by (symmetry; apply Nat.eqb_neq; auto). reflexivity.
+  - cbn [k_nodes set_nodes set_arrs put_node k_length k_level k_iters k_used k_alive]. rewrite !upd_length. repeat split; auto.
+Qed.
